@@ -4,7 +4,9 @@ check, record who fires, revert. Mutants are (name, file, old, new, expected pro
 file. Never leaves /repo modified."""
 import json, subprocess, sys, os, time
 
-REPO = "/repo"
+REPO = os.environ.get("CAMPAIGN_REPO", "/repo")
+SIM = os.environ.get("CAMPAIGN_SIM")  # a copy of /verif/sim whose path deps point at CAMPAIGN_REPO
+ROOT = os.environ.get("CAMPAIGN_ROOT", "/verif")
 IDS = [c["property_id"] for c in json.load(open("/verif/MANIFEST.json"))["checks"]]
 
 def sh(cmd, cwd=None, timeout=3600):
@@ -25,8 +27,15 @@ def run_mutant(name, apply, expected, run_tests=True, only=None):
             rc, out = sh("CARGO_NET_OFFLINE=true cargo test --workspace --no-fail-fast --offline >/tmp/campaign.test.log 2>&1; echo rc=$?", cwd=REPO)
             res["tests_pass"] = "rc=0" in out
         fired = {}
+        if SIM:
+            rc, out = sh("CARGO_NET_OFFLINE=true cargo build --release --offline 2>&1 | tail -20", cwd=SIM)
+            if "error" in out and "Finished" not in out:
+                res["build_error"] = out[-800:]
         for pid in (only or IDS):
-            rc, out = sh(f"./check {pid} --tier quick", cwd="/verif")
+            if SIM:
+                rc, out = sh(f"VERIF_ROOT={ROOT} PKSIM_PROFILE=checked {SIM}/target/release/pksim check {pid} --tier quick", cwd=ROOT)
+            else:
+                rc, out = sh(f"./check {pid} --tier quick", cwd="/verif")
             if rc != 0:
                 clauses = [l.strip()[8:] for l in out.splitlines() if l.strip().startswith("clause:")]
                 fired[pid] = {"exit": rc, "clauses": clauses[:6]}
